@@ -113,6 +113,13 @@ def gen_script(rnd, tier):
         L += ["inst %d : %d" % (oa, c), "inst %d : %d" % (ob, c), "dp %d : %d %d" % (oa, x, y),
               rnd.choice(["add %d : %d", "only %d : %d", "first %d : %d"]) % (c, x),
               "dp %d : %d %d" % (ob, x, y), "rprov %d :" % ob, "pk P %d :" % ob, "pk O %d :" % ob, "pk B %d :" % ob]
+    if n >= 2 and rnd.random() < 0.5:
+        # an interface declared directly while the class does NOT implement it; the class picks it up, and drops it again; the
+        # declaration is pickled after each step: what it provides and what its pickle gives back never part company
+        cz, oz = 90 + rnd.randint(0, 5), no + 5
+        x, y = rnd.sample(range(1, n + 1), 2)
+        L += ["class %d :" % cz, "inst %d : %d" % (oz, cz), "dp %d : %d" % (oz, x), "pk P %d :" % oz,
+              "add %d : %d" % (cz, x), "pk b %d :" % oz, "only %d : %d" % (cz, y), "rprov %d :" % oz, "pk p %d :" % oz, "pk o %d :" % oz, "pk b %d :" % oz]
     for i in range(1, n + 1):
         L.append("pk I %d :" % i)
     L.append("pk E :")
